@@ -178,6 +178,7 @@ def _invariant(w, where):
 
 def check_case(case):
     w = World(case["nv"], case.get("nuni", 0), case.get("vcls"), bool(case.get("dupuid")))
+    w.keyword_spelling = True       # v.add_to_link(link=l), l.add_vertex(new=v), ... in half of the calls
     classes = set()
     if any(not bool(v) for v in w.vs):
         classes.add("falsy-vertex-in-pool")
